@@ -39,7 +39,7 @@ UNITS = [
 ]
 # large-capacity units: symbolic capacity/length up to 1024 (4096 thorough) bytes (one big array, in-place allocator stub, abstract memcpy with a ghost witness byte)
 def G(name, fns, sv="cadical", **kw):
-    return [U("str_big%s_%s" % (tag, name), "str_big.c", "h_big_" + name, level="B", functions=fns, min_obl=5, replay=None, timeout=to, defines=["ARENA=%du" % cap], tiers=tiers, solver=sv,
+    return [U("str_big%s_%s" % (tag, name), "str_big.c", "h_big_" + name, level="B", functions=fns, min_obl=5, replay={"native": True, "sources": ["utf.c"]}, timeout=to, defines=["ARENA=%du" % cap], tiers=tiers, solver=sv,
               bound="capacity and length symbolic up to %d bytes, block lengths up to %d; allocator resizes in place" % (cap, cap), **kw)
             for tag, cap, to, tiers in (("", 1024, 300, ("quick", "thorough")), ("4k", 4096, 1800, ("thorough",)))]
 UNITS += sum([
